@@ -144,6 +144,24 @@ def opHaplomat : J.Op := fun j => do
 def opOhvmat : J.Op := fun j => do
   pure <| J.ofMat J.ofRat (calcOhvmat (← J.field j "H" mat4) (← J.field j "xmap" (J.mat J.nat)))
 
+/-- `_calc_ohvmat` with its chunk loop (`mem`: integer or null); also returns the closed form -/
+def opOhvmatChunked : J.Op := fun j => do
+  let H ← match ← J.fieldOpt j "H" mat4 with
+    | some H => pure H
+    | none => do
+      let b ← J.field j "bounds" (J.mat J.nat)
+      pure (calcHaplomat (← J.field j "mat" mat3) (← J.field j "u" (J.mat J.rat)) (b.map fun p => (p.getD 0 0, p.getD 1 0)))
+  let xm ← J.field j "xmap" (J.mat J.nat)
+  let mem ← J.field j "mem" (J.opt J.nat)
+  match calcOhvmatChunked mem H xm with
+  | none => J.fail "value: range() arg 3 must not be zero"
+  | some o => pure <| J.obj [("chunked", J.ofMat J.ofRat o), ("closed", J.ofMat J.ofRat (calcOhvmat H xm))]
+
+/-- `DenseExpectedMaximumBreedingValueMatrix.from_gmod` given the scripted progeny breeding values -/
+def opEmbvMat : J.Op := fun j => do
+  pure <| J.ofMat J.ofRat (embvMat (← J.field j "nrep" (J.list J.nat)) (← J.field j "prog" (J.list mat3))
+    (← J.field j "ntrait" J.nat))
+
 def opEmbv : J.Op := fun j => do
   pure <| J.ofMat J.ofRat (calcEmbv (← J.field j "nrep" J.nat) (← J.field j "tmaxs" mat3)
     (← J.field j "ntrait" J.nat))
@@ -154,11 +172,7 @@ def opSpecFactor : J.Op := fun j => do
   let K ← J.field j "K" (J.mat J.rat)
   let rel ← J.fieldD j "rel" J.rat (mkRat 1 (10 ^ 8))
   let abs_ ← J.fieldD j "abs" J.rat (mkRat 1 (10 ^ 10))
-  let Ct := Np.transpose C
-  let G := Ct.map fun ci => Ct.map fun cj => Np.dot ci cj
-  let ok := G.length == K.length && (List.zip G K).all fun (g, k) =>
-    g.length == k.length && (List.zip g k).all fun (a, b) => close rel abs_ a b
-  pure <| J.obj [("ok", J.ofBool ok)]
+  pure <| J.obj [("ok", J.ofBool (factorOk rel abs_ C K))]
 
 /-- the kinship matrix of a population computed by the **C13 model** (Model/Coancestry.lean) from the
     genotype counts: the independent `K` of the contract `CᵀC = K` in the factory cases.
@@ -192,7 +206,7 @@ def opLaLatent : J.Op := fun j => do
 def ops : List (String × J.Op) :=
   [("c05.latent", opLatent), ("c05.spec_latent", opSpecLatent), ("c05.evalfn", opEvalfn),
    ("c05.bvdata", opBvData), ("c05.wgebv", opWgebv), ("c05.guard", opGuard), ("c05.calcV", opCalcV), ("c05.xmap", opXmap),
-   ("c05.uc", opUc), ("c05.haplomat", opHaplomat), ("c05.ohvmat", opOhvmat), ("c05.embv", opEmbv),
+   ("c05.uc", opUc), ("c05.haplomat", opHaplomat), ("c05.ohvmat", opOhvmat), ("c05.ohvmat_chunked", opOhvmatChunked), ("c05.embvmat", opEmbvMat), ("c05.embv", opEmbv),
    ("c05.spec_factor", opSpecFactor), ("c05.kinship", opKinship), ("c05.la_step", opLaStep),
    ("c05.la_latent", opLaLatent)]
 
